@@ -576,13 +576,22 @@ class CoordMatcher(WrappingMatcher):
     when compared to another matcher returning the unmodified score.
     """
 
-    def __init__(self, child, scale=1.0):
+    def __init__(self, child, scale=1.0, termcount=None):
         WrappingMatcher.__init__(self, child)
-        self._termcount = len(list(child.term_matchers()))
+        if termcount is None:
+            termcount = len(list(child.term_matchers()))
+        self._termcount = termcount
         self._scale = scale
 
+    def copy(self):
+        return self.__class__(self.child.copy(), scale=self._scale,
+                              termcount=self._termcount)
+
     def _replacement(self, newchild):
-        return self.__class__(newchild, scale=self._scale)
+        # The number of terms in the query does not change when the matcher
+        # tree is simplified
+        return self.__class__(newchild, scale=self._scale,
+                              termcount=self._termcount)
 
     def _sqr(self, score, matching):
         # This is the "SQR" (Short Query Ranking) function used by Apple's old
